@@ -27,10 +27,18 @@ IMG_DATA = {
     # a collection in which the SAME array object occurs several times (bootstrap resample, [d] * 3)
     "I4": {"diagrams": [[[0.5, 1.5], [1.0, 1.25]], [[0.25, 2.0]]], "pattern": [0, 1, 0, 0]},
 }
+THOROUGH_ONLY = {"I5", "I6", "L4", "L5"}
+TIER = "quick"
+IMG_DATA.update({
+    "I5": [[[1000.0, 1000.5], [1000.25, 1002.0]], [[999.0, 1001.0]]],
+    "I6": [[[0.0, 0.05]], [[0.01, 0.02], [0.0, 0.03]], [[0.02, 0.07]], [[0.0, 0.01]]],
+})
 LS_DATA = {
     "L1": [[[0.0, 3.0], [1.0, 4.0]], [[1.0, 4.0]]],
     "L2": [[[10.0, 14.0], [11.0, 12.0]], [[10.5, 13.0]]],
     "L3": [[[2.0, 2.5], [-1.0, 0.5], [0.0, 6.0]], [[-1.0, 7.0], [0.0, 1.0]]],
+    "L4": [[[0.0, 0.0625], [0.03125, 0.125]], [[0.0, 0.25]]],
+    "L5": [[[-8.0, -2.0], [-6.0, -5.0], [-7.0, -1.0]], [[-4.0, -3.0], [-8.0, -6.0]]],
 }
 
 
@@ -38,6 +46,18 @@ def box_kernel(x, y, mu=None, w=0.5):
     from persim import images_kernels
 
     return images_kernels.uniform(x, y, mu=mu, width=w, height=2 * w)
+
+
+def estimators(tier):
+    if tier == "quick":
+        return ESTIMATORS
+    return ESTIMATORS + [
+        {"cls": "imager", "kw": {"pixel_size": 0.07}},
+        {"cls": "imager", "kw": {"pixel_size": 1.0, "kernel_params": {"sigma": [[0.5, 0.3], [0.3, 0.4]]}}},
+        {"cls": "landscaper", "kw": {"num_steps": 11, "start": 0.5}},
+        {"cls": "landscaper", "kw": {"num_steps": 4, "stop": -1.5, "hom_deg": 1}},
+        {"cls": "landscaper", "kw": {"num_steps": 9, "flatten": True}},
+    ]
 
 
 ESTIMATORS = [
@@ -53,7 +73,7 @@ ESTIMATORS = [
 
 
 def bounds(tier):
-    return {"estimators": len(ESTIMATORS), "ops_per_estimator": "3 x data sets (imager 4 incl. an aliased collection, landscaper 3)", "depth": 3 if tier == "quick" else 4}
+    return {"estimators": len(estimators(tier)), "ops_per_estimator": "3 x data sets (imager 4 incl. an aliased collection, landscaper 3)", "depth": 3 if tier == "quick" else 4}
 
 
 def make(init):
@@ -79,7 +99,7 @@ def data_for(init, key):
 
 
 def ops_for(init):
-    keys = IMG_DATA if init["cls"] == "imager" else LS_DATA
+    keys = [k for k in (IMG_DATA if init["cls"] == "imager" else LS_DATA) if TIER == "thorough" or k not in THOROUGH_ONLY]
     ops = [[op, k] for op in ("fit", "transform", "fit_transform") for k in keys]
     if init["cls"] == "imager":
         # the same protocol in pre-converted birth-persistence form (skew=False)
@@ -256,13 +276,16 @@ class _M:
 
 
 def run_shard(ctx):
+    global TIER
+    TIER = ctx.tier
     depth = 3 if ctx.tier == "quick" else 4
     # shard = (estimator, first operation): the BFS below a first operation is independent of the others
-    jobs = [(e, f) for e in range(len(ESTIMATORS)) for f in range(len(ops_for(ESTIMATORS[e])))]
+    ests = estimators(ctx.tier)
+    jobs = [(e, f) for e in range(len(ests)) for f in range(len(ops_for(ests[e])))]
     for jx, (e, f) in enumerate(jobs):
         if jx % ctx.nshards != ctx.shard:
             continue
-        init = ESTIMATORS[e]
+        init = ests[e]
         ops = ops_for(init)
         first = ops[f]
         if f == 0:
